@@ -73,7 +73,8 @@ TITLE = "CFG well-formedness"
 LEVEL_TEXT = (
     "edges are inserted only as mirrored successor/predecessor pairs, for every predecessor, and nowhere outside the lifting; a"
     " branch statement is followed by closing its block; branch targets name the blocks created next; fall-through sets are"
-    " built exactly from the branches' ends; loop depth arguments; the false target is patched once."
+    " built exactly from the branches' ends; loop depth arguments; the false target is patched once; statements are lifted in source"
+    " order; the block vector and the statements placed in it reach the graph unchanged."
 )
 NOT_DECIDED = "reachability of every block, at most two successors and `i dominates j implies i <= j` as graph facts for every program (they follow from the construction discipline checked here, not decided separately)."
 TRUSTED = ["syn parser", "path-condition extractor"]
